@@ -12,7 +12,8 @@ Design language (interpreted with the real API by interp.py; described staticall
           | {"k":"fsm","uid","state": id,"states":[{"name","block"}]}
           | {"k":"trans","name","ready": id|None,"block"}
           | {"k":"method","ref","ready": id|None,"nonexclusive","combiner": None|"or"|"sum"|"xor"|"count",
-             "single_caller","validate": None|[kind,c],"out":[kind(,c)],"loc": id|None,"sugar","block"}
+             "single_caller","validate": None|[kind,c] (eq/ne/lt/bit on the argument; sig/nsig, c = input id: guard of a
+             zero-argument method),"out":[kind(,c)],"loc": id|None,"sugar","block"}
           | {"k":"call","site","ref","enable": id|None|{"const":0|1,"form":"C"|"int"|"bool"},"arg": id|int|None,"kw","via_group"}
           | {"k":"provide","ref","target"} | {"k":"provide_group","group","targets":[refs]}
   rel     = {"k":"conflict","a","b","prio":"U|L|R"} | {"k":"before","a","b","rd":0|1}
@@ -183,6 +184,9 @@ class Gen:
                 validate = [kind, rng.randrange(1, 1 << iw)]
             else:
                 validate = [kind, rng.randrange(1 << iw)]
+        if iw == 0 and rng.random() < P["p_validate"] * 0.5:
+            # a zero-argument method with a per-caller guard: validate_arguments=lambda: g  /  lambda: ~g
+            validate = [rng.choice(["sig", "nsig"]), self.inp(1, "g")]
         out = ["const", 0]
         loc = None
         if ow > 0:
@@ -475,6 +479,19 @@ class Gen:
                 self.relations.pop()
             else:
                 have[r["k"]] += 1
+        # stacked declarations on one ordered pair (every declared relation counts): plain + ready_dependent
+        # schedule_before in both orders, schedule_before + add_conflict in both orders, add_conflict twice
+        for r in list(self.relations):
+            if rng.random() >= P.get("p_stack", 0.3):
+                continue
+            if r["k"] == "before":
+                extra = rng.choice([{**r, "rd": 1 - r["rd"]}, {"k": "conflict", "a": r["a"], "b": r["b"], "prio": rng.choice(["U", "L"])}])
+            else:
+                extra = rng.choice([{**r, "prio": rng.choice(["U", "L", "R"])}, {"k": "before", "a": r["a"], "b": r["b"], "rd": rng.choice([0, 1])}])
+            pos = self.relations.index(r) + rng.choice([0, 1])
+            self.relations.insert(pos, extra)
+            if classify(Desc(self.design()))["must"] != "accept":
+                self.relations.pop(pos)
 
 
 # -------------------------------------------------------------------------------------- streams
